@@ -37,6 +37,9 @@ CONFIGS = c07.CONFIGS + [
     {"name": "pre-reverse-order", "preimport": ["conda_content_trust.cli", "conda_content_trust.root_signing", "conda_content_trust.metadata_construction",
                                                 "conda_content_trust.signing", "conda_content_trust.authentication", "conda_content_trust.common"]},
     {"name": "pre-signing-only", "preimport": ["conda_content_trust.signing"]},
+    {"name": "warnings-error-UserWarning", "pyargs": ["-W", "error::UserWarning"]},
+    {"name": "PYTHONWARNINGS=error::UserWarning", "env": {"PYTHONWARNINGS": "error::UserWarning,error::RuntimeWarning"}},
+    {"name": "pre-strictwarnings", "preimport": ["vf.monitors.strictwarnings"]},
 ]
 
 
@@ -51,7 +54,7 @@ def plan(tier, seed):
     for T in ([4, 8] if q else [2, 4, 8, 16]):
         specs.append({"kind": "threads", "threads": T, "pool_seed": seed * 31 + 100 + T, "calls": 500 if q else 2500})
     cfgs = [c for c in CONFIGS if c["name"] in ("default", "hashseed4242", "LC_ALL=C", "-I", "stdout-ascii", "pre-reverse-order",
-                                                "pre-hashes-backends", "cwd=nonascii", "stdout-utf16")] if q else CONFIGS
+                                                "pre-hashes-backends", "cwd=nonascii", "stdout-utf16", "warnings-error-UserWarning", "pre-strictwarnings")] if q else CONFIGS
     for c in cfgs:
         s = {"kind": "corpus", "config": c["name"], "pool_seed": seed * 31 + 7, "calls": 160 if q else 600, "seed": seed}
         for k in ("hashseed", "env", "cwd", "pyargs", "stdout_encoding", "preimport", "setlocale"):
